@@ -120,8 +120,63 @@ func c17check(t *c17triple, m c17model, universe uint) string {
 	return ""
 }
 
-func c17apply(t *c17triple, m c17model, op c17op) (c17model, string) {
+func c17apply(t *c17triple, m c17model, op c17op, b *c17triple, mb *c17model) (c17model, string) {
 	switch op.Op {
+	case "setB":
+		b.l.Set(op.Bit)
+		b.s.Set(op.Bit)
+		b.c.Set(op.Bit)
+		n := mb.copy()
+		n[op.Bit] = true
+		*mb = n
+	case "orB", "andB", "xorB", "subB":
+		// the second operand lives on: a result that shares storage with it shows up when either is changed later
+		n := c17model{}
+		switch op.Op {
+		case "orB":
+			t.l.Or(b.l)
+			t.s.Or(b.s)
+			t.c.Or(b.c)
+			for k := range m {
+				n[k] = true
+			}
+			for k := range *mb {
+				n[k] = true
+			}
+		case "andB":
+			t.l.And(b.l)
+			t.s.And(b.s)
+			t.c.And(b.c)
+			for k := range m {
+				if (*mb)[k] {
+					n[k] = true
+				}
+			}
+		case "xorB":
+			t.l.Xor(b.l)
+			t.s.Xor(b.s)
+			t.c.Xor(b.c)
+			for k := range m {
+				if !(*mb)[k] {
+					n[k] = true
+				}
+			}
+			for k := range *mb {
+				if !m[k] {
+					n[k] = true
+				}
+			}
+		case "subB":
+			t.l.Sub(b.l)
+			t.s.Sub(b.s)
+			t.c.Sub(b.c)
+			for k := range m {
+				if !(*mb)[k] {
+					n[k] = true
+				}
+			}
+		}
+		m = n
 	case "set":
 		t.l.Set(op.Bit)
 		t.s.Set(op.Bit)
@@ -246,6 +301,12 @@ func TestC17Standin(t *testing.T) {
 		}
 	}
 	ops = append(ops, c17op{Op: "copy"}, c17op{Op: "shrink"})
+	for _, b := range []uint{1, 5, 63, 64, 130} {
+		ops = append(ops, c17op{Op: "setB", Bit: b})
+	}
+	for _, o := range []string{"orB", "andB", "xorB", "subB"} {
+		ops = append(ops, c17op{Op: o})
+	}
 	type failure struct {
 		Class  string  `json:"class"`
 		Input  string  `json:"input"`
@@ -260,11 +321,18 @@ func TestC17Standin(t *testing.T) {
 		evals++
 		tr := c17triple{}
 		m := c17model{}
+		tb := c17triple{}
+		mb := c17model{}
 		for i, op := range seq {
 			var d string
-			m, d = c17apply(&tr, m, op)
+			m, d = c17apply(&tr, m, op, &tb, &mb)
 			if d == "" {
 				d = c17check(&tr, m, 200)
+			}
+			if d == "" {
+				if d = c17check(&tb, mb, 200); d != "" {
+					d = "the other operand changed: " + d
+				}
 			}
 			if d != "" {
 				cl := op.Op
